@@ -431,3 +431,7 @@ package vals
 //@   loop 1 invariant ncalls == 2 && callis(0, "Len") && callis(1, "Len") && callres(0).(int) == callres(1).(int)
 //@   exit [equal-maps-have-the-same-size] result ==> ncalls == 2 && callis(0, "Len") && callis(1, "Len") && callres(0).(int) == callres(1).(int)
 //@   exit [sizes-taken-of-both-maps] ncalls >= 2 ==> callarg(0) === x && callarg(1) === y
+
+// reflection-based option scanner (used by the C17 sweep of pkg/mods/flag)
+//@ func ScanToGoOpts
+//@   trusted
